@@ -535,7 +535,12 @@ fn special_refs_updates<'a>(
 
     let mut updates = Updates::default();
 
-    for (remote_id, refs) in grouped {
+    for (remote_id, mut refs) in grouped {
+        // N.b. the remote decides the order in which it lists its
+        // references. The `rad/id` update must come first: if it
+        // aborts the transaction, nothing of this remote, and in
+        // particular not its `rad/sigrefs`, has been applied yet.
+        refs.sort_by_key(|(_, suffix)| !matches!(suffix, Left(refs::Special::Id)));
         let mut tips_inner = Vec::with_capacity(2);
         for (tip, suffix) in &refs {
             match &suffix {
